@@ -132,6 +132,13 @@ func (db *DB) put(tx *bbolt.Tx, obj *object.Object, nestingLevel int, currEpoch 
 		return diff, nil
 	case errors.As(err, &apistatus.ObjectNotFound{}):
 		// OK, we're putting here.
+		if metaBkt != nil {
+			if _, typErr := fetchTypeForID(metaBkt.Cursor(), obj.GetID()); typErr == nil {
+				// The object is indexed already and just not available (marked as garbage
+				// and not collected yet): nothing to add, and it must not be counted twice.
+				return diff, nil
+			}
+		}
 	case err != nil:
 		return diff, err // return any other errors
 	}
